@@ -4,6 +4,11 @@ from vlib import core, newgen, pkgrun
 PROP = "C02"
 LEAN_MODULES = ["ShootVerif.Props.C02"]
 USES_FACTS = False
+MANIFEST = dict(
+    text="Lean 4 theorems over a model of fields.go/new.go (sequential shadow marking, name-keyed nameMap, newParamsList, newBodyRec) and of the emitted keyed literal: for EVERY struct tree in WF, reading NewT(args) at any leaf path gives exactly the argument of the i-th eligible leaf / the def= value / zero (C02_value_at_path), parameters are the eligible leaves in depth-first order (C02_param_order), shadow flags are order-independent (C02_shadow_closed_form), newBodyRec re-parses the flat list into the nested literal (C02_body_reparse), pointer embeds are allocated. Model tied to the code by generating random struct packages, running the rebuilt `shoot new`, compiling NewT and calling it with sentinel arguments, reading every leaf back by reflection and comparing with model and spec.",
+    note="Lean kernel + standard axioms; model validated (not verified) against the code by the correspondence; go/types facts (field lists of embedded structs), the Go compiler's meaning of keyed literals and selector promotion are validated by execution; bool arguments are only told apart from zero; type-parameter constraints are checked by compilation of an instantiation only.",
+    technique="Lean 4 proof (induction over struct trees: flatten/shadow closed form, recursive-descent re-parse, path lookup, index correspondence) + differential correspondence with executed generated code",
+    design="5/C02")
 DRIVER = "shootmodel_new"
 
 
@@ -30,7 +35,14 @@ def make_case(cid, s, flags=()):
 def gen_cases(ctx):
     g = newgen.NewGen(ctx.rng)
     cases = []
-    n = ctx.n(150, 2500)
+    # corpus: witness of the known finding region first
+    wit = {"name": "T", "tparams": [], "typedoc": None, "members": [
+        {"k": "f", "name": "name", "type": "int32", "tagskip": True, "new": False, "def": None},
+        {"k": "e", "ptr": True, "new": False, "pkg": None,
+         "decl": {"name": "Core", "tparams": [], "typedoc": None, "members": [
+             {"k": "f", "name": "name", "type": "int", "new": False, "def": None}]}}]}
+    cases.append(make_case("w0", wit))
+    n = ctx.n(400, 4000)
     for i in range(n):
         r = ctx.rng.random()
         opts = {}
